@@ -717,6 +717,9 @@ func (g *TGen) InjectFault(s *genSchema) *SchemaFault {
 				return nil
 			}
 			m := mergedView(d)
+			if m[in] == nil {
+				return nil
+			}
 			req := m[in].Fields
 			if len(req) == 0 {
 				return nil
@@ -758,6 +761,9 @@ func (g *TGen) InjectFault(s *genSchema) *SchemaFault {
 				return nil
 			}
 			m := mergedView(d)
+			if m[in] == nil {
+				return nil
+			}
 			for _, rf := range m[in].Fields {
 				for i := range d.Defs {
 					if d.Defs[i].Name != t.Name {
@@ -806,6 +812,9 @@ func (g *TGen) InjectFault(s *genSchema) *SchemaFault {
 			}
 			m := mergedView(d)
 			mode := g.R.Intn(3)
+			if m[in] == nil {
+				return nil
+			}
 			for _, rf := range m[in].Fields {
 				for i := range d.Defs {
 					if d.Defs[i].Name != t.Name {
@@ -857,6 +866,9 @@ func (g *TGen) InjectFault(s *genSchema) *SchemaFault {
 			for i := range d.Defs {
 				t := &d.Defs[i]
 				for _, in := range t.Ifaces {
+					if m[in] == nil {
+						continue
+					}
 					for _, tr := range m[in].Ifaces {
 						// drop tr from every part of t
 						dropped := false
